@@ -17,9 +17,23 @@ import lemon_tables, writer_cases
 
 LEVEL = "model_checking"
 GEN = "CONSTANTS MaxLines = %d\n Sim = %s\nINIT Init\nNEXT Next\nINVARIANT Emit\nCHECK_DEADLOCK FALSE\n"
+WORDS = []
 WRITERS = ["html", "latex", "beamer", "memoir", "fodt", "opml", "itmz"]
 MODES = [("mmd", docs.STD), ("compat", docs.COMPAT)]
 NODEF = ("<div>", "[lnk]: http://x", "[x]: y \"t\"", "[>abbr]: Abbr", "[#cite]: Cite", "[^fn]: Note", "[?gl]: Term", "Key: value", "---", "", "{{TOC}}", "<!--", "-->")
+
+
+def word_counts(fmt, out, words):
+    """how often each LineSpell word can be read in a rendering: markup (tags, commands, environment names) removed; the outline formats keep the text in attributes"""
+    import project
+    b = project.lat1(out) if out is not None else b""
+    if fmt == "itmz":
+        ok, mem, err = project.zip_members(b)
+        b = b" ".join(m["data"] for m in mem if m["name"] == "mapdata.xml")
+    t = b.decode("latin-1")
+    if fmt in ("html", "fodt"): t = re.sub(r"<[^>]*>", " ", t)
+    elif fmt in ("latex", "beamer", "memoir"): t = re.sub(r"\\[A-Za-z]+", " ", re.sub(r"\\(begin|end)\{[^}]*\}", " ", t))
+    return {w: len(re.findall(r"(?<![A-Za-z0-9])" + re.escape(w) + r"(?![A-Za-z0-9])", t)) for w in words}
 
 
 def gen_docs(tier, seed):
@@ -81,6 +95,8 @@ def run(tier, seed):
     # 2. behaviours
     table, seqs, seqs3, sim, seqs4 = gen_docs(tier, seed)
     exe = build.build_harness("trace")
+    global WORDS
+    WORDS = sorted({e["w"] for e in table if e["w"]})
     corp = docs.corpus()
     traced = [("seq", s) for s in seqs] + [("seq", s) for s in (rnd.sample(seqs3, 3000) if tier == "quick" else seqs3)] + [("seq", s) for s in sim]
     alldocs = [("seq", s) for s in seqs + seqs3 + sim + seqs4]
@@ -141,6 +157,10 @@ def run(tier, seed):
         edocs = [("seq", s) for s in seqs] + [("seq", s) for s in rnd.sample(seqs3, 6000)] + [("seq", s) for s in sim] + [("raw", corp[n]) for n in sorted(corp)]
     # the same short sequences ending at end of input without a final newline (the last block meets EOF in every writer)
     edocs += [("seqnf", s) for s in seqs]
+    # every short sequence again after a metadata block, and after a complete table (what follows a table may be its caption -- or ordinary text)
+    ix = {e["t"]: i + 1 for i, e in enumerate(table)}
+    short = [s for s in seqs if len(s) <= 2]
+    edocs += [("seq", [ix["Key: value"], ix[""]] + s) for s in short] + [("seq", [ix["a | b"], ix["--|:-:"], ix["| c |"]] + s) for s in short]
     # metadata that re-configures the conversion (format switch, header levels, languages, inserted headers/footers)
     CONF = ["latex mode: beamer", "latex mode: memoir", "latexmode: article", "base header level: 3", "html header level: 4", "latex header level: -1", "odf header level: 2", "language: de", "quotes language: fr",
             "css: x.css", "html header: <script></script>", "html footer: <!-- f -->", "latex config: article", "latex input: pre", "latex footer: post", "bibtex: refs", "biblio style: plain", "xhtml header: <x/>",
@@ -151,12 +171,12 @@ def run(tier, seed):
     soup = docs.delimiter_soup()
     edocs += [("raw", d.encode()) for (k, a, b2, d) in (soup if tier == "thorough" else soup[::3] + soup[1::3][::4])]
     for i in range(0, len(edocs), per):
-        s = ["seg\te2e", "ptrace\t0"]
+        s = ["seg\te2e", "ptrace\t0", "wantout\t1"]
         for j, d in enumerate(edocs[i:i + per]):
             s.append(line("src", "d%d" % j, sx(body(d))))
             for w in WRITERS:
                 for mn, mx in MODES:
-                    s.append(line("conv", "s_conv", "d%d" % j, docs.FMT[w], mx, 0))
+                    s.append(line("conv", "s_data" if w == "itmz" else "s_conv", "d%d" % j, docs.FMT[w], mx, 0))        # (the map is a ZIP archive: only the data entry point returns all of it)
         segs2.append(s)
     res2 = run_harness(exe, segs2, timeout=60)
     ctrace = []; nconv = 0
@@ -167,7 +187,9 @@ def run(tier, seed):
                 di = si * per + int(ev["src"][1:])
                 d = edocs[di]
                 nonblank = d[0] == "seq" and table[d[1][0] - 1]["t"] not in NODEF and ev["fmt"] == 0 and not (ev["ext"] & 1)
-                ctrace.append(dict(e="conv", null=ev["null"], diag=ev["diag"], len=ev["len"], nonblank=nonblank, fmt=ev["fmt"], ext=ev["ext"], doc=di)); nconv += 1
+                fname = docs.FMTNAME[ev["fmt"]]; isseq = d[0] in ("seq", "seqnf")
+                ctrace.append(dict(e="conv", null=ev["null"], diag=ev["diag"], len=ev["len"], nonblank=nonblank, fmt=ev["fmt"], ext=ev["ext"], doc=di,
+                                   seq=list(d[1]) if isseq else [], cnt=word_counts(fname, ev.get("out"), WORDS) if isseq else {}, carries=fname in ("opml", "itmz"))); nconv += 1
             elif ev.get("e") in ("exit", "aborted", "timeout"):
                 # which document was being converted: the last `src` line at or before the command's line in this segment
                 sl = ev.get("sline", 0); dj = -1
@@ -179,6 +201,11 @@ def run(tier, seed):
     acc2, rejected2, states2, info2 = tlc.validate_trace("CompleteTrace", os.path.join(VERIF, "spec", "CompleteTrace.cfg"), ctrace, max_rejects=10, timeout=1500, heap="16g", independent=True)
     chk.add("traces_validated_against_impl", len(segs2) - len(rejected2))
     chk.cov["end_to_end"] = dict(documents=len(edocs), conversions=nconv, writers=WRITERS, modes=[m[0] for m in MODES], events_validated=acc2)
+    hideset = {i + 1 for i, e in enumerate(table) if e["hide"]}
+    chk.cov["visible_text"] = dict(words=WORDS, conversions_of_generated_documents=len([e for e in ctrace if e.get("seq")]),
+                                   judged_in_every_writer=len([e for e in ctrace if e.get("seq") and not (set(e["seq"][2:] if [table[i - 1]["t"] for i in e["seq"][:2]] == ["Key: value", ""] else e["seq"]) & hideset)]),
+                                   judged_in_outline_formats=len([e for e in ctrace if e.get("seq") and e["carries"]]),
+                                   rule="LineSpell.Complete: a document without hiding lines (HTML blocks/comments, definitions, metadata/YAML at the top) shows every word-bearing line at least as often as written, in all 7 writers; OPML/ITMZ for every document")
     chk.cov["evaluations"] = nconv + acc
     chk.cov["distinct_nontrivial"] = len(edocs)
     chk.cov["rule"] = ("documents = every sequence of <= 2 line spellings (32 spellings covering every realizable line kind), %s sequences of 3, TLC-simulated sequences of 12 lines, "
@@ -214,6 +241,9 @@ def run(tier, seed):
         if ev["e"] == "conv":
             kind = "no-result" if ev["null"] else ("escape:" + ",".join(sorted(set(ev["diag"]) & {"unknown_token", "parser_failed", "syntax_error"})) if set(ev["diag"]) & {"unknown_token", "parser_failed", "syntax_error"} else "empty-rendering")
             key = "%s:%s" % (kind, docs.FMTNAME[ev["fmt"]])
+            if kind == "empty-rendering" and not (ev["nonblank"] and ev["len"] <= 1) and ev.get("seq"):
+                short = sorted(w for w in WORDS if ev["cnt"].get(w, 0) < len([k for k, i in enumerate(ev["seq"]) if table[i - 1]["w"] == w and not (w == "cap" and k + 1 < len(ev["seq"]) and table[ev["seq"][k + 1] - 1]["t"] == "===")]))
+                key = "dropped-line:%s:%s:%s" % (docs.FMTNAME[ev["fmt"]], "compat" if ev["ext"] & 1 else "mmd", "+".join(short))
         elif ev["e"] == "exit":
             key = "exit-from-library"
         else:
